@@ -14,7 +14,7 @@ from pdfminer.pdfcolor import (
     LITERAL_INLINE_DEVICE_GRAY,
     LITERAL_INLINE_DEVICE_RGB,
 )
-from pdfminer.pdfexceptions import PDFValueError
+from pdfminer.pdfexceptions import PDFIOError, PDFValueError
 from pdfminer.pdftypes import (
     LITERALS_DCT_DECODE,
     LITERALS_FLATE_DECODE,
@@ -158,7 +158,7 @@ class ImageWriter:
         data = image.stream.get_data()
 
         name, path = self._create_unique_image_name(image, ".jpg")
-        with open(path, "wb") as fp:
+        with self._create_file(path) as fp:
             if LITERAL_DEVICE_CMYK in image.colorspace:
                 try:
                     from PIL import Image, ImageChops  # type: ignore[import]
@@ -180,7 +180,7 @@ class ImageWriter:
         data = image.stream.get_data()
 
         name, path = self._create_unique_image_name(image, ".jp2")
-        with open(path, "wb") as fp:
+        with self._create_file(path) as fp:
             try:
                 from PIL import Image  # type: ignore[import]
             except ImportError:
@@ -198,7 +198,7 @@ class ImageWriter:
     def _save_jbig2(self, image: LTImage) -> str:
         """Save a JBIG2 encoded image"""
         name, path = self._create_unique_image_name(image, ".jb2")
-        with open(path, "wb") as fp:
+        with self._create_file(path) as fp:
             input_stream = BytesIO()
 
             global_streams = []
@@ -234,7 +234,7 @@ class ImageWriter:
     ) -> str:
         """Save a BMP encoded image"""
         name, path = self._create_unique_image_name(image, ".bmp")
-        with open(path, "wb") as fp:
+        with self._create_file(path) as fp:
             bmp = BMPWriter(fp, bits, width, height)
             data = image.stream.get_data()
             i = 0
@@ -261,7 +261,7 @@ class ImageWriter:
                 % (width, height, image.bits)
             )
         channels = len(image.stream.get_data()) / width / height / (image.bits / 8)
-        with open(path, "wb") as fp:
+        with self._create_file(path) as fp:
             try:
                 from PIL import (
                     Image,  # type: ignore[import]
@@ -293,7 +293,7 @@ class ImageWriter:
         ext = ".%d.%dx%d.img" % (image.bits, image.srcsize[0], image.srcsize[1])
         name, path = self._create_unique_image_name(image, ext)
 
-        with open(path, "wb") as fp:
+        with self._create_file(path) as fp:
             fp.write(image.stream.get_data())
         return name
 
@@ -304,6 +304,15 @@ class ImageWriter:
             if filter_name in LITERALS_JBIG2_DECODE:
                 return True
         return False
+
+    @staticmethod
+    def _create_file(path: str) -> BinaryIO:
+        """Create the image file; a name the file system refuses (too long,
+        not representable) is reported as an error of this library."""
+        try:
+            return open(path, "wb")
+        except (OSError, ValueError) as e:
+            raise PDFIOError(f"Cannot create image file {path!r}: {e}") from e
 
     def _create_unique_image_name(self, image: LTImage, ext: str) -> Tuple[str, str]:
         # The image name comes from the document. Path separators (and the
